@@ -213,6 +213,21 @@ CHECKS = {
         "Library-level histories of describe/rebase/squash/split/abandon-like rewrites over many operations with concurrent operations merged by reload_at_head, stale transactions and op-restore style view resets; every edge is logged by the harness; walk_predecessors must terminate within a bound, list no commit twice, contain the full transitive predecessor closure recorded in ancestor operations and list every entry after all entries it is a predecessor of.",
         "Legacy operations without recorded predecessors are not generated.",
     ),
+    "C40": (
+        "runtime history monitor over the operation log: every pre-command disk state must be on disk or in some operation's working-copy commit",
+        "Random command sequences (new, edit, describe, commit, squash, split, abandon, rebase, restore, undo/redo, op restore/revert, workspace add/forget/update-stale, --at-op, stale workspaces) interleaved with random file edits in 1-2 workspaces drive the hooked jj binary hermetically; before each command the disk state of every workspace is recorded; afterwards every (path, bytes) must still be on disk or be found, through a read-only jj-lib reader, in that workspace's working-copy commit of some operation. Failed commands included.",
+        "Unedited jj-written conflict marker/placeholder files and edited files still containing conflict markers are exempt (C05/C06 territory); mutating commands are never run with --ignore-working-copy. Two genuine data-loss defects recorded as known findings.",
+    ),
+    "C41": (
+        "runtime monitor: structured view equality with the target operation computed from the op log",
+        "Random command sequences followed by undo / redo / op restore / op revert: after op restore X the head operation's heads, local bookmarks, tags and working-copy commits equal X's; undo/redo targets are computed from the operation log with an independent implementation of the documented undo-stack rule (repeated undo, redo of redo, intervening snapshot operations) and the resulting view must equal the target's; permitted difference: a same-tree child on an immutable restored working-copy commit.",
+        "op revert is checked only when X is the latest operation or when only bookmarks/tags changed since; remote-tracking bookmarks are not compared.",
+    ),
+    "C42": (
+        "runtime monitor: immutable ids (evaluated before each command) must stay visible after it",
+        "Random immutable_heads() configurations (builtin, none(), tags(), bookmarks(), description globs, specific commits) and random mutating commands on random targets (half of them immutable) without --ignore-immutable; the immutable set is taken from jj before the command, afterwards every id in it must still be in all(); a snapshot on an immutable @ must create a single-parent child; a second workspace's @ made immutable from the first.",
+        "undo, op restore, fetch and --at-op are excluded from this workload (they hide by time travel, not by rewriting).",
+    ),
 }
 
 LEVEL = {"C15": "fault_enumeration"}
